@@ -290,12 +290,16 @@ C02(g, ev, g2) ==
                  /\ PlacedOnCur(g, ev)
                  /\ PlacedCh(g, ev) \in PReady(g, ev)
                  /\ \A x \in PReady(g, ev) : Streams(g, PlacedCh(g, ev)) <= Streams(g, x)),
-     Cl("C02_b", ev.op \notin {"reset", "end"} /\ ev.wb.ok /\ g2.pend = <<>> /\ ev.res \notin {"PANIC", "HANG", "SPIN"},
+     Cl("C02_b", ev.op \notin {"reset", "end", "stress"} /\ ev.wb.ok /\ g2.pend = <<>> /\ ev.res \notin {"PANIC", "HANG", "SPIN"},
                  /\ Len(ev.wb.streams) = NChans(g2)
                  /\ \A x \in Chans(g2) : ev.wb.streams[x] = Streams(g2, x)),
      Cl("C02_d", Unkeyed(g, ev) /\ PickerOk(g, ev) /\ g.pubs[ev.pk].st # "TF"
                    /\ \E x \in PReady(g, ev) : Streams(g, x) < g.cfg.wm,
                  ev.res = "SC") }
+
+\* C03_s (evaluated in PoolTrace on "stress" events): after concurrent picks on different pickers, run with yields at
+\* every lock acquisition (the interleaving PoolConc.tla exhibits), the pool still holds at most maxSize channels
+StressOK(ev) == ev.pool <= ev.max
 
 Saturated(g, S) == \A x \in S : Streams(g, x) >= g.cfg.wm
 NoIdleConnecting(g) == \A x \in PoolOf(g) : CurSt(g, x) \notin {"IDLE", "CONNECTING"}
@@ -329,30 +333,30 @@ C03(g, ev, g2) ==
 StEntries(ev) == CCKinds(ev, "st")
 
 C04(g, ev, g2) ==
-  { Cl("C04_a", g2.pubs # <<>> /\ ev.op \notin {"reset", "end"},
+  { Cl("C04_a", g2.pubs # <<>> /\ ev.op \notin {"reset", "end", "stress"},
                  Last(g2.pubs).st = Agg(g2) /\ Last(g2.pubs).ready = ReadySet(g2)),
      Cl("C04_b", ev.op = "state" /\ (ReadySet(g) # ReadySet(g2) \/ (g.agg = "TF") # (g2.agg = "TF")),
                  StEntries(ev) # {}),
      Cl("C04_c", HasResult(ev) /\ PickerOk(g, ev) /\ ev.res \notin {"PANIC", "HANG", "SPIN", "TIMEOUT"},
                  (ev.res = "TF") <=> (g.pubs[ev.pk].st = "TF")),
-     Cl("C04_e", ev.op \notin {"reset", "end"} /\ ev.wb.ok /\ ev.res \notin {"PANIC", "HANG", "SPIN"},
+     Cl("C04_e", ev.op \notin {"reset", "end", "stress"} /\ ev.wb.ok /\ ev.res \notin {"PANIC", "HANG", "SPIN"},
                  /\ ev.wb.nr = Cardinality({x \in PoolOf(g2) : CurSt(g2, x) = "READY"})
                  /\ ev.wb.nc = Cardinality({x \in PoolOf(g2) : CurSt(g2, x) = "CONNECTING"})
                  /\ ev.wb.nt = Cardinality({x \in PoolOf(g2) : CurSt(g2, x) = "TF"})),
      Cl("C04_f", StEntries(ev) # {}, ev.op = "state") }
 
 C05(g, ev, g2) ==
-  { Cl("C05_a", ev.op \notin {"reset", "end"}, ev.res # "PANIC" /\ ev.probe # "PANIC"),
+  { Cl("C05_a", ev.op \notin {"reset", "end", "stress"}, ev.res # "PANIC" /\ ev.probe # "PANIC"),
      Cl("C05_b", HasResult(ev) /\ BadKeyReq(g, ev) /\ PickerOk(g, ev) /\ g.pubs[ev.pk].st # "TF" /\ PReady(g, ev) # {},
                  ev.res \in {"ERR", "NOSC"}) }
 
 CtxEnded(g, ev) == ev.op = "cancel" \/ (ev.dl > 0 /\ ev.dl <= g.now)
 
 C06(g, ev, g2) ==
-  { Cl("C06_a", ev.op \notin {"reset", "end"}, ev.res \notin {"HANG", "SPIN"}),
+  { Cl("C06_a", ev.op \notin {"reset", "end", "stress"}, ev.res \notin {"HANG", "SPIN"}),
      Cl("C06_b", IsPickEv(ev) /\ ev.res = "BLOCKED",
                  IsRRBind(g, ev) /\ ~CtxEnded(Tick(g, ev), ev) /\ \E x \in Chans(g) : ~Ready(g, x)),
-     Cl("C06_d", ev.op \notin {"reset", "end"} /\ ev.res \notin {"PANIC", "HANG", "SPIN", "TIMEOUT", "SKIPPED"},
+     Cl("C06_d", ev.op \notin {"reset", "end", "stress"} /\ ev.res \notin {"PANIC", "HANG", "SPIN", "TIMEOUT", "SKIPPED"},
                  ev.probe = "OK") }
 
 \* refresh rule evaluated on the ghost detector of the call's channel (pre-state g, time of the event)
@@ -419,12 +423,12 @@ MethodTable == {"/v/Bind=BIND:list", "/v/Bound=BOUND:list", "/v/Bound2=BOUND:lis
 C17(g, ev, g2) ==
   { Cl("C17_e", ev.op = "end", ev.res = "OK"),
     \* effective configuration = supplied one with the three zero-defaults, fixed by the first accepted resolver update (white-box)
-    Cl("C17_c", ev.op \notin {"reset", "end"} /\ ev.wb.ok /\ g2.init /\ ev.res \notin {"PANIC", "HANG", "SPIN"},
+    Cl("C17_c", ev.op \notin {"reset", "end", "stress"} /\ ev.wb.ok /\ g2.init /\ ev.res \notin {"PANIC", "HANG", "SPIN"},
                 /\ ev.wb.cfgset
                 /\ ev.wb.ecfg.min = g2.cfg.min /\ ev.wb.ecfg.max = g2.cfg.max /\ ev.wb.ecfg.wm = g2.cfg.wm
                 /\ ev.wb.ecfg.fb = g2.cfg.fb /\ ev.wb.ecfg.uc = g2.cfg.uc /\ ev.wb.ecfg.ums = g2.cfg.ums /\ ev.wb.ecfg.rr = g2.cfg.rr),
     \* every listed method with an affinity section is mapped to its command and key path, and no other method is
-    Cl("C17_m", ev.op \notin {"reset", "end"} /\ ev.wb.ok /\ g2.init /\ ev.res \notin {"PANIC", "HANG", "SPIN"},
+    Cl("C17_m", ev.op \notin {"reset", "end", "stress"} /\ ev.wb.ok /\ g2.init /\ ev.res \notin {"PANIC", "HANG", "SPIN"},
                 SeqToSet(ev.wb.meths) = (IF g2.methods THEN MethodTable ELSE {})),
      Cl("C17_b", ev.op = "resolve" /\ ev.cfgk = "bad" /\ ~g.init, ev.res = "ERR" /\ ev.cc = <<>>) }
 
@@ -446,7 +450,7 @@ Clauses(g, ev, g2) ==
   C01(g, ev, g2) \cup C02(g, ev, g2) \cup C03(g, ev, g2) \cup C04(g, ev, g2) \cup C05(g, ev, g2) \cup C06(g, ev, g2)
   \cup C07(g, ev, g2) \cup C08(g, ev, g2) \cup C09(g, ev, g2) \cup C17(g, ev, g2) \cup C20(g, ev, g2)
 
-ClauseIds == {"C01_a", "C01_b", "C01_d", "C02_a", "C02_b", "C02_d", "C03_a", "C03_b", "C03_c", "C03_d", "C03_e",
+ClauseIds == {"C01_a", "C01_b", "C01_d", "C02_a", "C02_b", "C02_d", "C03_a", "C03_b", "C03_c", "C03_d", "C03_e", "C03_s",
               "C04_a", "C04_b", "C04_c", "C04_e", "C04_f", "C05_a", "C05_b", "C06_a", "C06_b", "C06_d",
               "C07_a", "C07_b", "C07_c", "C07_e", "C08_a", "C08_b", "C08_e",
               "C09_a", "C09_a2", "C09_b", "C09_c", "C09_e", "C17_e", "C17_b", "C17_c", "C17_m", "C20_a", "C20_a2", "C20_b", "C20_c", "C20_d"}
